@@ -147,6 +147,8 @@ class Run:
             path = rep_dir / f"{self.prop}-{h}.json"
             path.write_text(json.dumps({"property": self.prop, "kind": "input", "seed": self.seed, **v}, indent=1, default=str))
             lines.append(f"VIOLATION property={self.prop} replay={path}")
+            # what failed, in one line, for logs that do not keep the replay file
+            lines.append("  detail: " + " ".join(str(v["what"]).split())[:700])
             nviol += 1
         if self.broken and nviol == 0:
             rep_dir.mkdir(exist_ok=True)
@@ -157,6 +159,7 @@ class Run:
                                         "search": self.notes.get("search", "the property's search oracle found no failing input")},
                                        indent=1, default=str))
             lines.append(f"VIOLATION property={self.prop} replay={path} no-failing-input-found")
+            lines.append("  detail: no longer checks: " + "; ".join(f"{w}: {' '.join(str(d).split())[:300]}" for w, d in self.broken[:3]))
             nviol += 1
         ev = {
             "property_id": self.prop,
